@@ -12,6 +12,8 @@ pub trait QuadRS: AccessQuad + RankQuad + SelectQuad + WTSupport + From<QVector>
     const BLOCK: usize;
     fn new_u8(v: &[u8]) -> Self;
     fn collect_u64(v: &[u8]) -> Self;
+    /// collect from an iterator without an exact size hint
+    fn collect_filtered(v: &[u8]) -> Self;
     fn len_(&self) -> usize;
     fn is_empty_(&self) -> bool;
     fn iter_vec(&self) -> Vec<u8>;
@@ -29,6 +31,9 @@ macro_rules! impl_quadrs {
             }
             fn collect_u64(v: &[u8]) -> Self {
                 v.iter().map(|&x| x as u64).collect()
+            }
+            fn collect_filtered(v: &[u8]) -> Self {
+                v.iter().copied().filter(|_| true).collect()
             }
             fn len_(&self) -> usize {
                 self.len()
